@@ -1,5 +1,6 @@
 CONSTANTS R = 2
   N = 1
+  Find = FALSE
   Relist = FALSE
   MaxRelist = 3
 SPECIFICATION Spec
